@@ -102,7 +102,7 @@ def dotprops(ctx, navis, rng):
         ctx.case(('dp', kind, form, k, str(rows)), nontrivial=kind not in ('generic',), sample=d if ci < 2 else None)
         ctx.count('cloud:' + kind); ctx.count('input:' + form)
         # three routes to tangents and alpha: make_dotprops, the lazy .vect/.alpha of Dotprops(points, k), recalculate_tangents
-        route = str(rng.choice(['make', 'make', 'lazy', 'recalc'])) if kind != 'nan' and form == 'ndarray' and len(fin) >= k else 'make'
+        route = str(rng.choice(['make', 'make', 'lazy', 'recalc'])) if kind != 'nan' and form == 'ndarray' and len(fin) >= k and k >= 2 else 'make'   # (k=1 is only claimed for make_dotprops)
         d['route'] = route
         ctx.count('route:' + route)
         if route == 'make':
@@ -389,6 +389,9 @@ def meshes(ctx, navis, rng):
         chunk = [None, 0, 2, 3, 4][int(rng.integers(5))]       # single pass, or marching cubes in chunks of that many voxels
         d['chunk_size'] = chunk
         st, m = guarded(navis.mesh, vxn, **({} if chunk is None else dict(chunk_size=chunk)))
+        if st != 'ok' and chunk not in (None, 0):
+            ctx.count('mesh:voxels:chunked-mesher-raised')     # tiny chunks can come out empty and make the chunked path raise: no surface, nothing to bound
+            continue
         if st != 'ok':
             ctx.violation('mesh(VoxelNeuron) raised', d, m); continue
         V = np.asarray(m.vertices, float)
